@@ -385,6 +385,11 @@ class Summariser:
     def _find_conditional(self, p):
         """A loop-independent condition on which a value of this path still depends."""
         v = p.value_obj
+        if isinstance(v, Term) and v.kind == "bool" and p.kind == "return":
+            # `return a and b` is `if a and b: return True else: return False`
+            base = v.text[4:] if v.text.startswith("not ") and v.text[4:] in self.atoms else v.text
+            if base in self.atoms and "_i" not in base and "_e" not in base:
+                return base
         if isinstance(v, Seq):
             for part in v.parts:
                 if part[0] == "if" and part[1] in self.atoms and "_i" not in part[1] and "_e" not in part[1]:
@@ -397,6 +402,11 @@ class Summariser:
 
     def _specialise(self, p, ctext, branch: bool):
         v = p.value_obj
+        if isinstance(v, Term) and v.kind == "bool" and p.kind == "return" and v.text in (ctext, "not " + ctext):
+            truth = branch if v.text == ctext else not branch
+            p.value_obj = Term(repr(truth))
+            p.value = repr(truth)
+            v = p.value_obj
         if isinstance(v, Seq):
             parts = []
             for part in v.parts:
@@ -449,6 +459,18 @@ class Summariser:
             return sorted(cnd.canon(parsed, True)), sorted(cnd.canon(parsed, False)), txt
         finally:
             cnd.EMPTINESS[0] = True
+
+    @staticmethod
+    def _is_bool_call(node) -> bool:
+        """isinstance(...) / issubclass(...) / bool(<comparison>) - calls whose value is a truth value."""
+        if not (isinstance(node, ast.Call) and isinstance(node.func, ast.Name) and not node.keywords):
+            return False
+        if node.func.id in ("isinstance", "issubclass", "callable", "hasattr"):
+            return True
+        if node.func.id == "bool" and len(node.args) == 1:
+            a = node.args[0]
+            return isinstance(a, (ast.Compare, ast.BoolOp)) or (isinstance(a, ast.UnaryOp) and isinstance(a.op, ast.Not)) or Summariser._is_bool_call(a)
+        return False
 
     def _lengths(self, test, env):
         """`if xs:` / `if not xs:` on a sequence value is a test of its length."""
@@ -771,6 +793,13 @@ class Summariser:
                 f = c.func
                 if isinstance(f, ast.Attribute) and isinstance(f.value, ast.Name) and isinstance(env.get(f.value.id), Seq) and f.attr in ("append", "extend") and len(c.args) == 1:
                     seq = env[f.value.id]
+                    if f.attr == "append" and isinstance(c.args[0], ast.IfExp):
+                        # append(A if c else B) is `if c: append(A) else: append(B)`
+                        ie = c.args[0]
+                        ct, cf, _ = self.cond(ie.test, env)
+                        part = self.mk_if(ct, cf, (("e", text(self.ev(ie.body, env))),), (("e", text(self.ev(ie.orelse, env))),), boolean_parts=True)
+                        env[f.value.id] = Seq(seq.kind, seq.parts + (part,))
+                        return state
                     v = self.ev(c.args[0], env)
                     if f.attr == "append":
                         env[f.value.id] = Seq(seq.kind, seq.parts + (("e", text(v)),))
@@ -1142,9 +1171,12 @@ class Summariser:
             return Term(t)
         if isinstance(node, ast.Call):
             return self.call(node, env)
-        if isinstance(node, (ast.Compare, ast.BoolOp)) or (isinstance(node, ast.UnaryOp) and isinstance(node.op, ast.Not)):
-            ct, _, _ = self.cond(node, env)
-            return Term(self.cond_text(ct))
+        if isinstance(node, (ast.Compare, ast.BoolOp)) or (isinstance(node, ast.UnaryOp) and isinstance(node.op, ast.Not)) or self._is_bool_call(node):
+            if isinstance(node, ast.Call) and isinstance(node.func, ast.Name) and node.func.id == "bool":
+                node = node.args[0]  # bool(<boolean expression>) is the expression
+            ct, cf, _ = self.cond(node, env)
+            ctext, swapped = self.orient(ct, cf)
+            return Term(ctext if not swapped else neg_text(ctext), "bool")
         if isinstance(node, ast.Subscript):
             base = self.ev(node.value, env)
             if isinstance(base, Tup) and isinstance(node.slice, ast.Constant) and isinstance(node.slice.value, int) and -len(base.items) <= node.slice.value < len(base.items):
